@@ -19,10 +19,10 @@ theorem finishCompiled_restarts (f : Fn) (ipAfter : Int) (c : Core) (r : Regs) (
   exact ⟨_, rfl, rfl, rfl, rfl, rfl, rfl⟩
 
 /-- A self call in tail position restarts the function in the same frame. -/
-theorem execCall_restarts (code : Code) (f : Fn) (ip : Int) (c : Core) (cr : Nat)
-    (hcallee : getSlot c.regs (c.regs.sp - 1 - byteAt f (ip + 1)) = .cfn cr)
+theorem execCall_restarts (code : Code) (f : Fn) (ip : Int) (a0 a1 : Nat) (c : Core) (cr : Nat)
+    (hcallee : getSlot c.regs (c.regs.sp - 1 - a0) = .cfn cr)
     (ht : isSelfTail f c.cur cr (ip + 2) = true) :
-    PostX (execCall code f ip c) (Restarted c) := by
+    PostX (execCall code f ip a0 a1 c) (Restarted c) := by
   unfold execCall
   dsimp only
   apply PostX_bind'
@@ -69,8 +69,8 @@ theorem self_tail_call_constant_space {code : Code} {t : ProgTabs} {G : Nat} (hc
     dsimp only
     split
     · exact PostX_fault _
-    rw [if_pos (by simp [hop])]
-    exact execCall_restarts code f _ c cr hcallee htail
+    rw [if_pos (by rw [fetch_op]; simp [hop])]
+    exact execCall_restarts code f _ _ _ c cr hcallee htail
   refine SafeX_mono (SafeX_and h1 h3) ?_
   rintro o ⟨hgoal, c', rfl, hip, hidx, hbp, href, hcs⟩
   have hinv' : Inv code t G c' := hgoal
